@@ -686,6 +686,18 @@ impl BytecodeInterpreter {
         self.locals.len() - 1
     }
 
+    /// Verification hook: canonical dump of the compiled program and the
+    /// compiler's scope tables (global slots and the function map).
+    #[cfg(feature = "verif")]
+    pub fn verif_dump(&self) -> String {
+        let globals = self.locals[0]
+            .iter()
+            .map(|l| l.identifiers.join("/"))
+            .collect::<Vec<_>>()
+            .join(".");
+        format!("{} G:{}", self.vm.verif_dump(), globals)
+    }
+
     pub fn get_defining_unit(&self, unit_name: &str) -> Option<&Unit> {
         self.unit_name_to_constant_index
             .get(unit_name)
